@@ -74,13 +74,15 @@ Check (C07_run_shape :
     exists pre, ns = pre ++ closed_part (alive t') (mgr_up t') /\
                 forall x, In x pre -> is_sub_note x = true))).
 Check (C07_lifecycle :
-  forall al mup mask es t' ns,
-  all_alive al = true -> conn_run al mup mask es = (Some t', ns) -> gone t' <> None ->
-  (exists rest, ns = map NEst (seq 0 (length al)) ++ rest /\ (forall i, cnt (is_est_of i) rest = 0%nat)) /\
-  (forall i, (i < length al)%nat -> cnt (is_est_of i) ns = 1%nat) /\
+  forall al mup es t' ns,
+  conn_run al mup es = (Some t', ns) -> gone t' <> None ->
+  (exists rest, ns = map NEst (alive_idx 0 al) ++ rest /\ (forall i, cnt (is_est_of i) rest = 0%nat)) /\
+  (forall i, cnt (is_est_of i) ns = if nth i al false then 1%nat else 0%nat) /\
   cnt is_mgr_closed ns = (if mgr_up t' then 1%nat else 0%nat) /\
   (forall i, cnt (is_closed_of i) ns = if nth i (alive t') false then 1%nat else 0%nat) /\
-  (forall i, nth i (alive t') false = true -> (i < length al)%nat)).
+  (forall i, nth i (alive t') false = true -> nth i al false = true)).
+Check (C07_connection_always_started :
+  forall al mup es, exists t' ns, conn_run al mup es = (Some t', ns)).
 Check (C07_exit_only_on_cause :
   forall t e, gone t = None -> gone (fst (cstep t e)) <> None -> is_cause e = true).
 Check (C07_cause_exits :
@@ -92,18 +94,13 @@ Check (C07_live_protocol_served :
 Check (C07_dead_protocol_ignored :
   forall t i ob, gone t = None -> nth i (alive t) false = false ->
   cstep t (ENeg (NegOk i ob)) = (t, []) /\ cstep t (ENeg (NegFail i)) = (t, [])).
-Check (C07_accept_all_alive :
-  forall al mup mask, all_alive al = true ->
-  accept al mup mask = (Some (mkTask al mup None), map NEst (seq 0 (length al)))).
-Check (C07_accept_dead_refuted :
-  exists al mask, existsb (fun b => b) al = true /\
-  fst (accept al true mask) = None /\
-  In (NEst 0) (snd (accept al true mask)) /\ ~ In (NEst 2) (snd (accept al true mask)) /\
-  cnt is_close_note (snd (accept al true mask)) = 0%nat).
-Check (C07_accept_dead_class :
-  forall al mup mask, all_alive al = false ->
-  fst (accept al mup mask) = None /\
-  forall x, In x (snd (accept al mup mask)) -> exists i, x = NEst i /\ nth i al false = true).
+Check (C07_accept_serves_live :
+  forall al mup, accept al mup = (Some (mkTask al mup None), map NEst (alive_idx 0 al))).
+Check (C07_accept_each_once :
+  forall al i, cnt (is_est_of i) (map NEst (alive_idx 0 al)) = if nth i al false then 1%nat else 0%nat).
+Check (C07_unfixed_accept_refuted :
+  fst (accept_unfixed [true; false; true] true [0%nat]) = None /\
+  accept [true; false; true] true = (Some (mkTask [true; false; true] true None), [NEst 0; NEst 2])).
 Check (C07_unfixed_loop_refuted :
   let t := mkTask [true; false] true None in
   let r := cstep_unfixed t (ENeg (NegOk 1 false)) in
@@ -141,5 +138,7 @@ Check (C07_node_feeds_manager :
   let fed := snd (snd r) in
   let g := arun L (nd_mgr nd) l ann fed in
   env_trace L (nd_mgr nd) l fed /\ nd_mgr (fst r) = fst g /\ NodeInv L (fst r) (fst (snd g)) (snd (snd g))).
+Check (C07_node_no_rollback :
+  forall L es nd c ok, In (AcceptDone c ok) (snd (snd (node_run L nd es))) -> ok = true).
 Check (C07_node_init :
   forall L n, NodeInv L (node_init n) [] []).
